@@ -235,6 +235,10 @@ def tower(name, order, aux=None):
         res = [(lambda f: (lambda t, f=f: f(t, aux)))(f) for f in fs]
     else:
         res = [sp.lambdify(x, d, 'mpmath') for d in ds]
+        if name == 'exp_m1':
+            res[0] = mpmath.expm1
+        if name == 'ln_1p':
+            res[0] = mpmath.log1p
     _towers[key] = res
     return res
 
@@ -262,3 +266,53 @@ def apply_unary(name, J, aux=None):
     tw = tower(name, n + 1, aux)
     d = [f(J.re) for f in tw]
     return J.compose(d), J.compose_abs(d)
+
+
+# ------------------------------------------------------------------------------------------------------
+# spherical Bessel functions j0, j1, j2: derivative towers valid at and near zero
+
+def sph_tower(nu, order):
+    """list of callables d_k(x) for the spherical Bessel function j_nu"""
+    import sympy as sp
+    key = ('sph', nu, order)
+    if key in _towers:
+        return _towers[key]
+    x = sp.Symbol('x')
+    closed = [sp.sin(x) / x, (sp.sin(x) - x * sp.cos(x)) / x ** 2, ((3 - x ** 2) * sp.sin(x) - 3 * x * sp.cos(x)) / x ** 3][nu]
+    ds = [closed]
+    for k in range(order):
+        ds.append(sp.diff(ds[-1], x))
+    fs = [sp.lambdify(x, sp.simplify(d), 'mpmath') for d in ds]
+
+    def series(k):
+        def f(t):
+            # j_nu(x) = sum_m (-1)^m x^(2m+nu) / (2^m m! (2nu+2m+1)!!), differentiated k times termwise
+            tot = mpf(0)
+            for m in range(0, 60):
+                p = 2 * m + nu
+                if p < k:
+                    continue
+                c = mpf(-1) ** m / (mpf(2) ** m * mpmath.factorial(m) * mpmath.fac2(2 * nu + 2 * m + 1))
+                ff = mpf(1)
+                for q in range(k):
+                    ff *= (p - q)
+                tot += c * ff * (t ** (p - k) if p - k > 0 else mpf(1))
+            return tot
+        return f
+
+    def pick(k):
+        s = series(k)
+
+        def f(t):
+            if abs(t) < 0.5:
+                return s(t)
+            old = mp.dps
+            mp.dps = 90
+            try:
+                return +fs[k](mpf(t))
+            finally:
+                mp.dps = old
+        return f
+    res = [pick(k) for k in range(order + 1)]
+    _towers[key] = res
+    return res
